@@ -54,8 +54,8 @@ def parse_cardinality(val):
         min_val = parsed_vals[0].strip()
         max_val = parsed_vals[1].strip()
 
-        min_int = min_val.isdigit() and int(min_val) >= 0
-        max_int = max_val.isdigit() and int(max_val) >= 0
+        min_int = min_val.isdecimal() and int(min_val) >= 0
+        max_int = max_val.isdecimal() and int(max_val) >= 0
 
         if min_int and max_int and int(max_val) >= int(min_val):
             return int(min_val), int(max_val)
